@@ -84,17 +84,27 @@ func (s *StoreManager) Deliver(
 		mailboxes = append(mailboxes, recip.Mailbox)
 	}
 
-	// Construct InboundMessage event and process through extensions.
+	// Construct InboundMessage event and process through extensions.  Listeners get their own
+	// copies of the addresses: only a returned message may change the delivery, a listener that
+	// fails or declines must not be able to alter it by side effect.
+	hookFrom := *fromAddrs[0]
+	hookTo := make([]*mail.Address, len(toAddrs))
+	for i, addr := range toAddrs {
+		addrCopy := *addr
+		hookTo[i] = &addrCopy
+	}
 	inbound := &event.InboundMessage{
 		Mailboxes: mailboxes,
-		From:      fromAddrs[0],
-		To:        toAddrs,
+		From:      &hookFrom,
+		To:        hookTo,
 		Subject:   subject,
 		Size:      int64(len(source)),
 	}
 
 	extResult := s.ExtHost.Events.BeforeMessageStored.Emit(inbound)
 	if extResult == nil {
+		inbound.From = fromAddrs[0]
+		inbound.To = toAddrs
 		// Use address policy to determine deliverable mailboxes.
 		mailboxes = mailboxes[:0]
 		for _, recip := range recipients {
